@@ -25,12 +25,15 @@ API_SURFACE = {
   "LruCacheMap<int, Tracked, TagAlloc>(alloc) and LruCacheSet<int, TagAlloc>(alloc): ledger value type (copy/destroy bookkeeping), explicit stateful allocator through the constructor, rebound into list_ and map_ (variants T, A); KeyValuePair typedef",
   "LruCacheMap::put(k, get(j)) with j != k: value argument is a reference into the cache (token PG)",
   "exists()/size() of both caches through a const reference",
+  "argument aliasing, caches: every LruCacheMap member taking a key by const reference -- put (key; key and value), touch, touch_if_exists, erase, erase_if_exists, get, get_touch, exists -- is also called with the key argument a reference INTO the cache (token @OP,j: the reference get(j) returns; Key and Value of one type: int/int, std::string/std::string, and the int inside a stored Tracked), with generated values often equal to the entry's own key so that the member destroys the entry its argument lives in; model side = the plain operation with the value read at call time",
+  "argument aliasing, SplayTree: insert, erase(const Key&), exists, find called with a reference to the key of the node find() returned (token @OP,j), all variants incl. the free functions",
   "regimes: key universes of 24-48 keys (deep splay trees, long left/right assemblies; unordered_map index growing through rehashes), exhaustive blocks run on a seed-chosen variant"],
  "left_out": [
   "LruCacheMap::put(k, get(k)) (value aliases the entry put() erases first) is generated (repaired in /repo by fixes/C17/04)",
   "move-only Value / Key types: put() takes const references and copies into the list, pop() returns by copy -- such instantiations do not compile, nothing to test",
   "copy / move construction and assignment of the containers: compiler-generated; a copied LruCache holds iterators into the source list and a copied SplayTree shares nodes (not part of the property; the classes document no copy semantics)",
   "protected typedefs List/ListIterator/Map of the caches (only reachable by deriving), SplayTree::Node public struct fields (read only through find())",
+  "argument aliasing for LruCacheSet: the class hands out no reference, iterator or preview accessor into its storage (pop() returns by value, the typedefs are protected, the members private), so no aliasing call can be written against it; pop()/size()/clear() take no arguments",
   "pop() on an empty cache (assert), traversal functors that modify the tree"]
 }
 
@@ -326,5 +329,5 @@ ck.finish({
     "Compare = std::less over integer keys; node identity = allocation number",
     "pop() on an empty cache is a precondition violation (assert) and excluded from histories",
     "extraction: ExtrOcamlBasic only; nat/list stay Coq inductives",
-    "variants (kind:variant) select the C++ instantiation only; PG,k,j is the model history [get j; put k v], EN,k is [find k; erase k]; mirrored keys under the reversed comparator are mapped back before comparison",
+    "variants (kind:variant) select the C++ instantiation only; PG,k,j is the model history [get j; put k v], EN,k is [find k; erase k]; @OP,j is [get j; OP v] (cache) / [find j; OP x] (tree); mirrored keys under the reversed comparator are mapped back before comparison",
 ])
